@@ -92,6 +92,48 @@ func init() {
 		}
 		l.p("/-- number of places in pkg/pipe (outside `newPPipe`) that read the compiled filter `fltF` -/")
 		l.p("def fltFUseSites : Nat := %d", uses)
+		// is the filter *called* in siterator.Get inside a loop that steps the underlying iterator, and handed to the
+		// iterator by worker.run?
+		called, steps, handed := false, false, false
+		sif := parseFile("pkg/pipe/siterator.go")
+		if fd := funcDecl(sif, "siterator", "Get"); fd != nil {
+			ast.Inspect(fd.Body, func(n ast.Node) bool {
+				fs, ok := n.(*ast.ForStmt)
+				if !ok {
+					return true
+				}
+				ast.Inspect(fs, func(m ast.Node) bool {
+					if ce, ok := m.(*ast.CallExpr); ok {
+						if se, ok := ce.Fun.(*ast.SelectorExpr); ok {
+							if se.Sel.Name == "fltF" {
+								called = true
+							}
+							if se.Sel.Name == "Next" {
+								steps = true
+							}
+						}
+					}
+					return true
+				})
+				return true
+			})
+		} else {
+			problem("pipe.siterator.Get not found")
+		}
+		if fd := funcDecl(parseFile("pkg/pipe/worker.go"), "worker", "run"); fd != nil {
+			ast.Inspect(fd.Body, func(n ast.Node) bool {
+				if as, ok := n.(*ast.AssignStmt); ok && len(as.Lhs) == 1 && len(as.Rhs) == 1 {
+					if l1, ok := as.Lhs[0].(*ast.SelectorExpr); ok && l1.Sel.Name == "fltF" {
+						if r1, ok := as.Rhs[0].(*ast.SelectorExpr); ok && r1.Sel.Name == "fltF" {
+							handed = true
+						}
+					}
+				}
+				return true
+			})
+		}
+		l.p("/-- `siterator.Get` calls the filter in a loop that steps the underlying iterator over rejected events, and `worker.run` hands the pipe's `fltF` to its iterator -/")
+		l.p("def filterAppliedBySourceIterator : Bool := %s", leanBool(called && steps && handed))
 
 		// --- channel capacity
 		capv := -1
